@@ -353,6 +353,48 @@ def soup_check(chk, binary, soups):
 
 
 # ------------------------------------------------------------------ the check
+def struct_stream(chk, binary, n):
+    """struct definitions, instantiation, field access, generic structs, lists of structs: expected
+    verdict and dimensions by construction (dimlib.struct_templates)"""
+    ts = []
+    for k in range(n):
+        ts += D.struct_templates(chk.rng, k)
+    lines = [t["source"].replace("\n", "\x1f") for t in ts]
+    out = common.run_harness(binary, "dim", lines, timeout=600)
+    bad = 0
+    stats = collections.Counter()
+    for t, o in zip(ts, out):
+        tc = (o or "").split("\t")[0]
+        extra = (o or "\t").split("\t")[1] if o and "\t" in o else ""
+        why = None
+        if t["expect"] == "accept":
+            if not tc.startswith("ok|"):
+                why = "a dimensionally consistent input is rejected"
+            else:
+                got = {}
+                for st in tc[3:].split("#"):
+                    p = st.split("|")
+                    if p[0] == "let":
+                        got[p[1]] = p[2]
+                for name, want in t["lets"].items():
+                    if got.get(name) != "Q0[]:" + want:
+                        why = "inferred type of %s is %s, dimensional analysis gives %s" % (name, got.get(name), want)
+        else:
+            if not tc.startswith("err|"):
+                why = "an input that equates different dimensions is not rejected with a type error"
+            elif "prints=0" not in extra or "defs=same" not in extra:
+                why = "a rejected input printed or defined something"
+        stats[t["expect"] + ("" if why is None else " FAILED")] += 1
+        if why and bad < 2:
+            chk.violation({"kind": why, "inputs": t["source"], "expected": t["expect"], "observed": tc,
+                           "family": "struct template",
+                           "replay": "printf '<input, lines joined by \\x1f>' | harness/target/debug/nbverif dim"})
+        if why:
+            bad += 1
+    chk.cov["struct_templates"] = dict(stats)
+    return bad
+
+
 def run(chk):
     T = {}
     t0 = time.time()
@@ -449,6 +491,9 @@ def run(chk):
                     n, cases[n]["kind"], cases[n].get("why"), src_text(cases[n]["inputs"]), bad[n],
                     impl[n].split("\t")[0]))
 
+    # ---- structs (outside the model and the tuple AST): by-construction templates on the implementation
+    struct_fail = struct_stream(chk, binary, 30 if chk.tier == "quick" else 400)
+
     # ---- decision
     t0 = time.time()
     found = report_failures(chk, binary, cases, impl, failures, known)
@@ -531,7 +576,7 @@ def run(chk):
         "model_compared_cases": len(items),
         "model_unsupported": len(unsupported),
         "model_mismatches": len(bad),
-        "oracle_failures": len(failures) + soup_bad,
+        "oracle_failures": len(failures) + soup_bad + struct_fail,
         "phase_wall_s": T,
         "samples": [sample(n) for n in picks],
     })
